@@ -271,31 +271,33 @@ def run_active(sx, cfg, env):
     psz, pval = cfg["padding_size"], 0xAA
     dec = iso.IsoTpActiveDecoder(bus, [IDS[0], IDS[1]], [TX[0], TX[1]], padding_size=psz,
                                  padding_value=pval)
-    payload, frames = _segments(sx, "p", cfg["L"], cfg["fs"], cfg["pad"])
-    got = []
     which = cfg.get("which", 1)
-    for i, fr in enumerate(frames):
-        before = len(bus.sent)
-        got += list(dec.decode_rx_frame(IDS[which], fr))
-        new = bus.sent[before:]
-        is_first = len(frames) > 1 and i == 0
-        if is_first:
-            sx.require(len(new) == 1, "one-flow-control-per-first-frame")
-            if new:
-                m = new[0]
+    Ls = cfg.get("Ls") or [cfg["L"]]
+    for j, L in enumerate(Ls):  # several telegrams in a row on the same id
+        payload, frames = _segments(sx, f"p{j}" if len(Ls) > 1 else "p", L, cfg["fs"], cfg["pad"])
+        got = []
+        for i, fr in enumerate(frames):
+            before = len(bus.sent)
+            got += list(dec.decode_rx_frame(IDS[which], fr))
+            new = bus.sent[before:]
+            is_first = len(frames) > 1 and i == 0
+            if is_first:
+                sx.require(len(new) == 1, "one-flow-control-per-first-frame")
+                if new:
+                    m = new[0]
+                    sx.require(m.arbitration_id == TX[which], "flow-control-sent-on-the-paired-tx-id")
+                    d = bytes(m.data)
+                    want = bytes([0x30, 0xFF, 0x00]) + bytes([pval] * max(0, psz - 3))
+                    sx.require(d == want, "flow-control-is-clear-to-send")
+            elif len(frames) > 1 and i <= 255:
+                sx.require(len(new) == 0, "no-flow-control-inside-a-block")
+            for m in new:
+                # whatever the decoder sends is a clear-to-send on the tx id paired with this rx id
                 sx.require(m.arbitration_id == TX[which], "flow-control-sent-on-the-paired-tx-id")
-                d = bytes(m.data)
-                want = bytes([0x30, 0xFF, 0x00]) + bytes([pval] * max(0, psz - 3))
-                sx.require(d == want, "flow-control-is-clear-to-send")
-        elif len(frames) > 1 and i <= 255:
-            sx.require(len(new) == 0, "no-flow-control-inside-a-block")
-        for m in new:
-            # whatever the decoder sends is a clear-to-send on the tx id paired with this rx id
-            sx.require(m.arbitration_id == TX[which], "flow-control-sent-on-the-paired-tx-id")
-            sx.require(bytes(m.data)[:3] == bytes([0x30, 0xFF, 0x00]), "flow-control-is-clear-to-send")
-    sx.require(len(got) == 1, "telegram-reported-exactly-once")
-    if got:
-        sx.require(got[0][1] == payload, "telegram-content")
+                sx.require(bytes(m.data)[:3] == bytes([0x30, 0xFF, 0x00]), "flow-control-is-clear-to-send")
+        sx.require(len(got) == 1, "telegram-reported-exactly-once")
+        if got:
+            sx.require(got[0][1] == payload, "telegram-content")
 
 
 HARNESSES = {
@@ -369,6 +371,11 @@ def configs(tier, seed):
     for L, fs, ps in act:
         out.append({"id": f"active/L{L}/ps{ps}", "harness": "active", "L": L, "fs": fs, "pad": True,
                     "padding_size": ps})
+    for Ls in ([(20, 20), (20, 1, 20), (9, 120, 8)] if tier == "quick" else
+               [(20, 20), (20, 1, 20), (9, 120, 8), (8, 8, 8), (4095, 9), (9, 1, 1, 9)]):
+        for ps in (0, 8):
+            out.append({"id": "active/seq" + "-".join(map(str, Ls)) + f"/ps{ps}", "harness": "active",
+                        "Ls": list(Ls), "L": Ls[0], "fs": 8, "pad": True, "padding_size": ps})
     return out
 
 
